@@ -103,8 +103,8 @@ def plant(rng, gen):
         kind = rng.choice(["unknown", "misplaced", "invalid_content", "bad_attr", "allowed_unknown", "repeat", "error_parent_plus_offender",
                            "junk_in_metadata", "mutate", "typed_content", "listed_only"])
         if kind == "unknown":
-            c = Node(rng.choice(["verifUnknown", "referencePublication", "usageCitation"]), content=rng.choice([None, "x"]))
-            if rng.random() < 0.4:
+            c = treegen.foreign_node(rng)
+            if rng.random() < 0.3:
                 c.add_child(Node("title", content="below unknown"))
             c.tail = rng.choice([None, None, " text after the element", "\n    "])
             n.add_child(c, rng.randint(0, len(n.children)))
